@@ -82,10 +82,13 @@ const (
 	mutPatchKeepsForms           // defun after a forward reference does not patch the placeholder: old call sites stay undefined
 	mutCompileDropsMain          // compiled code, evaluated again, skips the non-definition forms
 	mutSplitLambda               // a function that was forward-referenced has two lambda objects: callers created after its first definition never see a redefinition
+	mutNestedOrphan              // a forward call compiled while the arguments of a forward call of the SAME function are compiled keeps a placeholder that the definition never fills in
+	mutDefaultFormOrphan         // a forward call inside the default form of an &optional / &key parameter is never connected to the definition
+	mutMapcarFirstListOnly       // mapcar over several lists passes the elements of the first list only
 )
 
 var allMutations = []mutation{mutFwdDropArgs, mutFwdDropClosure, mutEarlyBind, mutCacheArgValue, mutDefvarTwice, mutEvalMutatesData,
-	mutPatchKeepsForms, mutCompileDropsMain, mutSplitLambda}
+	mutPatchKeepsForms, mutCompileDropsMain, mutSplitLambda, mutNestedOrphan, mutDefaultFormOrphan, mutMapcarFirstListOnly}
 
 var mutNames = map[mutation]string{
 	mutFwdDropArgs:      "forward-referenced call drops its arguments",
@@ -97,6 +100,9 @@ var mutNames = map[mutation]string{
 	mutPatchKeepsForms:  "defun does not patch the forward-reference placeholder",
 	mutCompileDropsMain: "compiled code skips re-evaluation of non-definition forms after the first run",
 	mutSplitLambda:      "redefinition of a once-forward-referenced function is not seen by callers created after its first definition",
+	mutNestedOrphan:        "a forward call nested in the arguments of a forward call of the same function stays undefined",
+	mutDefaultFormOrphan:   "a forward call in the default form of an &optional / &key parameter stays undefined",
+	mutMapcarFirstListOnly: "mapcar over two lists calls the function with the element of the first list only",
 }
 
 // fwdEdge is a call site that was defined / compiled before its callee existed.
@@ -126,12 +132,22 @@ type refMachine struct {
 	siteGen     map[*lst]int     // generation of the callee when the site was created
 	evalCount   map[int]int      // E steps per slot
 	ranCompiled map[int]bool
+	hits        map[string]int // vacuity counters discovered while classifying
+	fwdStack    []sym          // forward call sites whose arguments are being walked (noteSites)
+	orphans     map[*lst]bool  // mutNestedOrphan / mutDefaultFormOrphan
+	inDefault   bool
+	flavors     map[sym]map[sym]*lambda
+	special     map[sym]bool // variables proclaimed special by defvar / defparameter / defconstant: let binds them dynamically
 }
+
+// instance of a flavor (the programs make one per flavor and send it messages).
+type instance struct{ flavor sym }
 
 func newRefMachine(m mutation) *refMachine {
 	return &refMachine{funcs: map[sym]*lambda{}, globals: map[sym]*val{}, slots: map[int][]val{}, mut: m,
 		fwdSites: map[*lst]bool{}, boundAt: map[*lst]*lambda{}, fwdNames: map[sym]bool{}, fwdVars: map[sym]bool{}, cache: map[*lst]val{},
-		definedGen: map[sym]int{}, siteGen: map[*lst]int{}, evalCount: map[int]int{}, ranCompiled: map[int]bool{}}
+		definedGen: map[sym]int{}, siteGen: map[*lst]int{}, evalCount: map[int]int{}, ranCompiled: map[int]bool{},
+		hits: map[string]int{}, orphans: map[*lst]bool{}, flavors: map[sym]map[sym]*lambda{}, special: map[sym]bool{}}
 }
 
 // ---------------------------------------------------------------- reader
@@ -245,6 +261,8 @@ func refShow(v val) string {
 		return "#<function>"
 	case compiledMark:
 		return "#<built-in>"
+	case *instance:
+		return "#<instance>"
 	}
 	return fmt.Sprintf("#<%T>", v)
 }
@@ -371,11 +389,12 @@ func (m *refMachine) intArg(v val, op string) int {
 var specialForms = map[sym]bool{"quote": true, "function": true, "if": true, "let": true, "let*": true, "progn": true,
 	"setq": true, "cond": true, "when": true, "unless": true, "and": true, "or": true, "defun": true, "defmacro": true,
 	"defvar": true, "defparameter": true, "defconstant": true, "backquote": true, "lambda": true, "return-from": true,
-	"defgeneric": true, "defmethod": true}
+	"defgeneric": true, "defmethod": true, "defflavor": true, "defstruct": true}
 
 var builtins = map[sym]bool{"+": true, "-": true, "*": true, "<": true, ">": true, "=": true, "list": true, "first": true,
 	"second": true, "third": true, "car": true, "cdr": true, "listp": true, "not": true, "null": true, "tr": true, "eval": true,
-	"funcall": true, "apply": true, "c08-out": true, "mapcar": true, "1+": true, "1-": true, "length": true, "cons": true, "eq": true}
+	"funcall": true, "apply": true, "c08-out": true, "mapcar": true, "1+": true, "1-": true, "length": true, "cons": true, "eq": true,
+	"fmakunbound": true, "make-instance": true, "send": true, "fboundp": true}
 
 func (m *refMachine) eval(v val, e *env) val {
 	m.fuel--
@@ -383,7 +402,7 @@ func (m *refMachine) eval(v val, e *env) val {
 		m.fail("fuel", "evaluation does not terminate")
 	}
 	switch t := v.(type) {
-	case nil, int, tval, *lambda:
+	case nil, int, tval, *lambda, *instance:
 		return v
 	case compiledMark:
 		return m.eval(t.form, e)
@@ -491,6 +510,12 @@ func (m *refMachine) evalList(l *lst, e *env) val {
 		return nil
 	case "let", "let*":
 		ne := &env{vars: map[sym]*val{}, parent: e}
+		type saved struct {
+			cell *val
+			old  val
+		}
+		var dyn []saved
+		var pending []func() // let binds after every initial form is evaluated
 		if bl, ok := args[0].(*lst); ok {
 			for _, b := range bl.items {
 				var name sym
@@ -508,10 +533,35 @@ func (m *refMachine) evalList(l *lst, e *env) val {
 						}
 					}
 				}
+				if cellp, isGlobal := m.globals[name]; isGlobal && m.special[name] {
+					// a special variable: the binding is dynamic, functions called from the body see it
+					v := init
+					bind := func() {
+						dyn = append(dyn, saved{cell: cellp, old: *cellp})
+						*cellp = v
+						m.hits["special-variable-rebound-by-let"]++
+					}
+					if head == "let" {
+						pending = append(pending, bind)
+					} else {
+						bind()
+					}
+					// .. and a closure made inside the let keeps the binding (slip's scopes: a function defined inside
+					// a let captures the let's scope whether or not the variable is also a global one; Common Lisp
+					// itself depends on whether the defvar came before that let, so the statement cannot decide)
+				}
 				cell := init
 				ne.vars[name] = &cell
 			}
 		}
+		for _, bind := range pending {
+			bind()
+		}
+		defer func() {
+			for i := len(dyn) - 1; 0 <= i; i-- {
+				*dyn[i].cell = dyn[i].old
+			}
+		}()
 		return m.evalBody(args[1:], ne)
 	case "setq":
 		var r val
@@ -528,8 +578,30 @@ func (m *refMachine) evalList(l *lst, e *env) val {
 			}
 		}
 		return r
+	case "defstruct":
+		// (defstruct name slot..) with up to three slots: a keyword constructor and one reader per slot, written as
+		// ordinary functions over a list (the programs only pass the instances around and read them)
+		name, _ := args[0].(sym)
+		if nl, ok := args[0].(*lst); ok {
+			name = nl.items[0].(sym)
+		}
+		var slots []string
+		for _, sl := range args[1:] {
+			if ss, ok := sl.(sym); ok {
+				slots = append(slots, string(ss))
+			}
+		}
+		src := "(defun make-" + string(name) + " (&key " + strings.Join(slots, " ") + ") (list " + strings.Join(slots, " ") + "))"
+		for i, sl := range slots {
+			src += " (defun " + string(name) + "-" + sl + " (obj) (" + []string{"first", "second", "third"}[i] + " obj))"
+		}
+		for _, f := range refRead(src) {
+			m.eval(f, e)
+		}
+		return name
 	case "defvar", "defparameter", "defconstant":
 		name := args[0].(sym)
+		m.special[name] = true
 		if _, has := m.globals[name]; has && head == "defvar" {
 			return name
 		}
@@ -558,6 +630,14 @@ func (m *refMachine) evalList(l *lst, e *env) val {
 		for _, f := range fn.body {
 			m.noteSites(f, "plain")
 		}
+		// default forms are evaluated when the parameter is missing: a lazily compiled position
+		m.inDefault = true
+		for _, p := range fn.params {
+			if p.def != nil {
+				m.noteSites(p.def, "special")
+			}
+		}
+		m.inDefault = false
 		m.funcs[name] = fn
 		m.definedGen[name]++
 		return name
@@ -569,7 +649,27 @@ func (m *refMachine) evalList(l *lst, e *env) val {
 			m.definedGen[name]++
 		}
 		return name
+	case "defflavor":
+		name := args[0].(sym)
+		if m.flavors[name] == nil {
+			m.flavors[name] = map[sym]*lambda{}
+		}
+		return name
 	case "defmethod":
+		if fm, ok := args[0].(*lst); ok {
+			// (defmethod (flavor :message) (params) body): a flavors method
+			fl, msg := fm.items[0].(sym), fm.items[1].(sym)
+			if m.flavors[fl] == nil {
+				m.fail("error", "%s is not a defined flavor.", fl)
+			}
+			fn := m.makeLambda("", args[1], args[2:], nil, false)
+			for _, f := range fn.body {
+				m.noteSites(f, "plain")
+			}
+			m.flavors[fl][msg] = fn
+			m.definedGen[fl+msg]++
+			return msg
+		}
 		// one method, specialised on classes every argument of the programs belongs to: the generic function
 		// behaves like an ordinary function with that body (defmethod makes the generic function when it is missing)
 		name := args[0].(sym)
@@ -613,6 +713,9 @@ func (m *refMachine) evalList(l *lst, e *env) val {
 		}
 	}
 	if m.mut == mutPatchKeepsForms && m.fwdSites[l] {
+		fn = nil
+	}
+	if (m.mut == mutNestedOrphan || m.mut == mutDefaultFormOrphan) && m.orphans[l] {
 		fn = nil
 	}
 	if m.mut == mutSplitLambda && m.fwdNames[head] && !m.fwdSites[l] {
@@ -744,7 +847,7 @@ func (m *refMachine) bind(fn *lambda, ne *env, argv []val) {
 		if i < len(argv) {
 			if _, absent := argv[i].(refAbsent); absent {
 				if p.optional || p.key {
-					c := p.def
+					c := m.eval(p.def, ne)
 					ne.vars[p.name] = &c
 				}
 				continue
@@ -753,8 +856,8 @@ func (m *refMachine) bind(fn *lambda, ne *env, argv []val) {
 		switch {
 		case i < len(argv):
 			cell = argv[i]
-		case p.optional:
-			cell = p.def // slip keeps the default as a literal; the programs use constants only
+		case p.optional || p.key:
+			cell = m.eval(p.def, ne) // evaluated in the scope of the call: earlier parameters are visible
 		default:
 			// C04's finding (missing required arguments are accepted and left unbound) is not
 			// this property's business: leave the parameter unbound like slip does.
@@ -905,6 +1008,33 @@ func (m *refMachine) builtin(head sym, l *lst, e *env) val {
 			return nil
 		}
 		return mkList(append([]val(nil), items[1:]...))
+	case "fboundp":
+		name, _ := argv[0].(sym)
+		return boolVal(m.funcs[name] != nil || builtins[name] || specialForms[name])
+	case "fmakunbound":
+		name, _ := argv[0].(sym)
+		delete(m.funcs, name)
+		return name
+	case "make-instance":
+		name, _ := argv[0].(sym)
+		if m.flavors[name] == nil {
+			m.fail("error", "%s is not a defined flavor.", refShow(argv[0]))
+		}
+		return &instance{flavor: name}
+	case "send":
+		inst, ok := argv[0].(*instance)
+		if !ok || len(argv) < 2 {
+			m.fail("type-error", "send: %s is not an instance", refShow(argv[0]))
+		}
+		msg, _ := argv[1].(sym)
+		fn := m.flavors[inst.flavor][msg]
+		if fn == nil {
+			m.fail("invalid-method-error", "%s does not include the %s method.", inst.flavor, refShow(argv[1]))
+		}
+		if g, has := m.siteGen[l]; has && 0 < g && g < m.definedGen[inst.flavor+msg] {
+			m.redefSeen = true
+		}
+		return m.apply(fn, argv[2:])
 	case "eval":
 		form := argv[0]
 		r := m.eval(form, &env{})
@@ -941,8 +1071,20 @@ func (m *refMachine) builtin(head sym, l *lst, e *env) val {
 			return m.apply(fn, rest)
 		default:
 			var out []val
-			for _, it := range listItems(argv[1]) {
-				out = append(out, m.apply(fn, []val{it}))
+			for i := 0; ; i++ {
+				var call []val
+				for _, l := range argv[1:] {
+					if items := listItems(l); i < len(items) {
+						call = append(call, items[i])
+					}
+				}
+				if len(call) < len(argv)-1 {
+					break // the shortest list ends the mapping
+				}
+				if m.mut == mutMapcarFirstListOnly {
+					call = call[:1]
+				}
+				out = append(out, m.apply(fn, call))
 			}
 			return mkList(out)
 		}
@@ -1026,6 +1168,25 @@ func (m *refMachine) noteSites(v val, pos string) {
 		}
 		return
 	}
+	if head == "send" && 2 < len(l.items) {
+		// a message whose method does not exist yet: a forward reference by designator
+		if msg, ok := l.items[2].(sym); ok {
+			known, gen := false, 0
+			for fl, ms := range m.flavors {
+				if ms[msg] != nil {
+					known, gen = true, m.definedGen[fl+msg]
+				}
+			}
+			if _, seen := m.siteGen[l]; !seen {
+				m.siteGen[l] = gen
+			}
+			if !known && !m.fwdSites[l] {
+				m.fwdSites[l] = true
+				m.edges = append(m.edges, fwdEdge{pos: "ref"})
+				m.hits["fwd-send-method-missing"]++
+			}
+		}
+	}
 	if !builtins[head] {
 		fn := m.funcs[head]
 		if _, seen := m.siteGen[l]; !seen {
@@ -1037,6 +1198,34 @@ func (m *refMachine) noteSites(v val, pos string) {
 				m.fwdSites[l] = true
 				m.fwdNames[head] = true
 				m.edges = append(m.edges, fwdEdge{pos: pos, nargs: len(l.items) - 1})
+				if 0 < len(m.fwdStack) {
+					m.hits["fwd-nested-in-fwd-arg"]++
+				}
+				for _, outer := range m.fwdStack {
+					if outer == head {
+						if pos == "plain" {
+							m.hits["fwd-nested-same-function-eager"]++
+							if m.mut == mutNestedOrphan {
+								m.orphans[l] = true
+							}
+						} else {
+							m.hits["fwd-nested-same-function-lazy"]++
+						}
+						break
+					}
+				}
+				if m.inDefault {
+					m.hits["fwd-in-default-form"]++
+					if m.mut == mutDefaultFormOrphan {
+						m.orphans[l] = true
+					}
+				}
+				m.fwdStack = append(m.fwdStack, head)
+				for _, it := range l.items[1:] {
+					m.noteSites(it, pos)
+				}
+				m.fwdStack = m.fwdStack[:len(m.fwdStack)-1]
+				return
 			}
 		} else if fn.macro {
 			// a macro call: its arguments are not function-argument positions
